@@ -1,0 +1,27 @@
+//go:build verif
+
+package layer
+
+import (
+	"time"
+
+	"github.com/containerd/stargz-snapshotter/fs/reader"
+	"github.com/containerd/stargz-snapshotter/fs/remote"
+)
+
+// Verification hooks (build tag "verif" only) for property C15: reach the parts of a resolved layer the
+// prefetch / background-fetch harness observes, and shorten the prefetch timeout below one second
+// (the configuration only has whole seconds). No behaviour change.
+
+// VerifSetPrefetchTimeoutC15 overrides the timeout used by WaitForPrefetchCompletion.
+func VerifSetPrefetchTimeoutC15(r *Resolver, d time.Duration) { r.prefetchTimeout = d }
+
+// VerifLayerPartsC15 returns the verifiable reader, the reader handed to the FUSE nodes (nil until the
+// layer was verified) and the blob of a layer returned by Resolver.Resolve.
+func VerifLayerPartsC15(l Layer) (*reader.VerifiableReader, reader.Reader, remote.Blob) {
+	lr, ok := l.(*layerRef)
+	if !ok {
+		return nil, nil, nil
+	}
+	return lr.layer.verifiableReader, lr.layer.r, lr.layer.blob.Blob
+}
